@@ -193,7 +193,7 @@ func isNumType(t string) bool {
 
 func genDefault(r *rng.R, typ string, s *hSchema, o genOpts) string {
 	if isNumType(typ) {
-		d := rng.Pick(r, []string{"0", "1", "42", "-7", "-1", "3.5", "-0.25", "(1+2)", "(abs(-3))", "1e3", "+5", "1.50", "007", "3.14159265358979", "0.1234567890123"})
+		d := rng.Pick(r, []string{"0", "1", "42", "-7", "-1", "3.5", "-0.25", "(1+2)", "(abs(-3))", "1e3", "+5", "1.50", "007", "0.0", "3.14159265358979", "0.1234567890123"})
 		if o.atlasSafe && (d == "+5" || d == "1e3" || d == "007") {
 			d = "7"
 		}
